@@ -7,7 +7,7 @@ from ..ref import crn
 from ..modelspec import reaction_tuple
 
 POOL = ['A', 'B', 'C']
-STATES = [dict(A=2.0, B=3.0, C=5.0), dict(A=0.5, B=1.5, C=2.5), dict(A=0.0, B=4.0, C=1.0), dict(A=7.0, B=0.0, C=0.5),
+STATES = [dict(A=2.0, B=3.0, C=5.0), dict(A=3.0, B=2.55, C=1.0), dict(A=0.5, B=1.5, C=2.5), dict(A=0.0, B=4.0, C=1.0), dict(A=7.0, B=0.0, C=0.5),
           dict(A=1.0, B=1.0, C=1.0)]
 TIMES = [0.0, 1.5]
 PARAMS = {'kf': 1.7, 'KK': 2.0, 'nn': 2.0, 'tau': 0.3, 'mu': 0.5, 'sd': 0.2, 'sh': 2.0, 'sc': 0.1, 'kg': 0.9}
@@ -23,6 +23,8 @@ def propensity_variants():
         dict(kind='proportionalhillpositive', k='kf', K='KK', n='nn', s1='B', d='C'),
         dict(kind='proportionalhillnegative', k='kf', K=1.5, n=2.0, s1='C', d='A'),
         dict(kind='general', rate=('/', ('*', ID('kg'), ID('A')), ('+', ('num', 1), ('*', ID('B'), ('t',))))),
+        # a net (reversible) rate: negative at some of the evaluation states, zero at one of them
+        dict(kind='general', rate=('-', ('*', ID('kf'), ID('A')), ('*', ID('KK'), ID('B')))),
     ]
 
 
@@ -79,6 +81,7 @@ def reaction_lists(tier):
         dict(reactants=[], products=[], kind='massaction', k=1.0),
         dict(reactants=['C'], products=['A'], kind='massaction', k='kf'),
         dict(reactants=['B', 'C'], products=['A'], kind='massaction', k=0.7),
+        dict(reactants=['A'], products=['B'], kind='general', rate=('-', ('*', ID('kf'), ID('A')), ('*', ID('KK'), ID('B')))),
     ]
     out = []
     for k in ((2,) if tier == 'quick' else (2, 3)):
@@ -130,6 +133,7 @@ def declarations():
     d.append(('incremental', None))
     d.append(('shared-dict-constructor', None))
     d.append(('shared-dict-create', None))
+    d.append(('create-keywords', None))
     return d
 
 
@@ -157,6 +161,24 @@ def build(rxs, decl, POOL=POOL, STATES=STATES):
         m = Model(species=list(POOL), parameters=params, initial_condition_dict=ic)
         for t in tuples:
             m.create_reaction(*t)
+        m.py_initialize()
+        return m
+    if how == 'create-keywords':
+        # the keyword form of create_reaction with every optional argument that carries nothing left out
+        params = list(PARAMS.items())
+        ic = {s: STATES[0][s] for s in POOL}
+        m = Model(species=list(POOL), parameters=params, initial_condition_dict=ic)
+        for r in rxs:
+            t = reaction_tuple(r)
+            kw = dict(reactants=t[0], products=t[1], propensity_type=t[2], propensity_param_dict=t[3])
+            if len(t) > 4:
+                kw['delay_type'] = t[4]
+                kw['delay_param_dict'] = t[7]
+                if t[5]:
+                    kw['delay_reactants'] = t[5]
+                if t[6]:
+                    kw['delay_products'] = t[6]
+            m.create_reaction(**kw)
         m.py_initialize()
         return m
     if how == 'incremental':
@@ -192,7 +214,7 @@ def check_model(c, item):
     try:
         m = build(rxs, decl, POOL_, STATES_)
     except Exception as e:
-        if decl[0] in ('explicit', 'incremental', 'shared-dict-constructor', 'shared-dict-create'):
+        if decl[0] in ('explicit', 'incremental', 'shared-dict-constructor', 'shared-dict-create', 'create-keywords'):
             c.violation(key + 'build-exception', 'a valid reaction list with every species declared was rejected: %r' % e, case)
         else:
             c.count('rejected_undeclared')   # a rate refers to a species that this declaration style has not declared yet
@@ -297,7 +319,7 @@ def run(ctx):
     bigs = big_reaction_lists(ctx.tier)
     for rxs in bigs:
         for d in ([('explicit', list(BIGPOOL)), ('explicit', list(reversed(BIGPOOL))), ('explicit', BIGPOOL[3:] + BIGPOOL[:3]), ('ic-only', None),
-                   ('incremental', None), ('shared-dict-constructor', None), ('shared-dict-create', None)]):
+                   ('incremental', None), ('shared-dict-constructor', None), ('shared-dict-create', None), ('create-keywords', None)]):
             items.append((rxs, d, 'big'))
     pmap(check_model, items, ctx, nshards=256)
     miss = []
@@ -310,7 +332,9 @@ def run(ctx):
                 rx['delay'] = d
             names = [v for v in list(pv.values()) + (list(dl.values()) if dl else []) if isinstance(v, str) and v in PARAMS]
             if pv['kind'] == 'general':
-                names.append('kg')
+                def ids(t):
+                    return ([t[1]] if t[0] == 'id' else []) + [x for sub in t[1:] if isinstance(sub, tuple) for x in ids(sub)]
+                names += [n_ for n_ in ids(pv['rate']) if n_ in PARAMS]
             for nm in sorted(set(names)):
                 miss.append((rx, nm))
     pmap(check_missing, miss, ctx, nshards=32)
@@ -319,8 +343,8 @@ def run(ctx):
     ctx.rule = ('E2: single reactions with every reactant x product sequence of length 0..4 over {A,B,C} (quick: 0..3, thinned beyond total '
                 'length 3), every propensity type x delay type x delayed reactant/product lists; ordered pairs (thorough: triples) from a '
                 '12-reaction menu; each under all declaration styles (6 explicit permutations, implicit by the reactions, via the initial '
-                'condition dictionary in two orders, incrementally: first reaction, initialise, then each further reaction followed by an initialisation; and with one parameter dictionary object shared by all mass-action reactions of equal k, through the constructor and through create_reaction). In addition rotations / reversals of a 13-reaction list over 7 species (5..13 reactions, orders 0..4, counts up to 200) under seven declaration styles. Oracle: update arrays equal products minus reactants counted with multiplicity '
-                '(exact), derivative equals (S+Sd).rate with closed-form rates at 5 states x 2 times (1e-12). Missing value: for every '
+                'condition dictionary in two orders, incrementally: first reaction, initialise, then each further reaction followed by an initialisation; and with one parameter dictionary object shared by all mass-action reactions of equal k, through the constructor and through create_reaction; and through the keyword form of create_reaction with empty optional arguments left out). In addition rotations / reversals of a 13-reaction list over 7 species (5..13 reactions, orders 0..4, counts up to 200) under seven declaration styles. Oracle: update arrays equal products minus reactants counted with multiplicity '
+                '(exact), derivative equals (S+Sd).rate with closed-form rates at 6 states x 2 times (1e-12). Missing value: for every '
                 'parameter position a reaction can mention, the model without that value must fail to initialise, build an interface or '
                 'simulate. states = models; non-trivial = derivative non-zero somewhere; distinct by (reaction list, declaration).')
     ctx.assumptions = ['closed-form rate laws as in C01; stoichiometry by counting']
